@@ -249,6 +249,19 @@ class Universe:
         elif op == "ReplaceAllUsesSeq":
             self._ret(ir.convenience.replace_all_uses_with([self.V(x) for x in c["vs"]], [self.V(x) for x in c["ws"]],
                                                            replace_graph_outputs=bool(c["flag"])))
+        elif op == "NewGraph":
+            gi = c["g"]
+            old = self.graphs[gi - 1]
+            new = ir.Graph([self.V(x) for x in c["vs"]], [self.V(x) for x in c["ws"]],
+                           nodes=self._seq([self.N(c["n"])] if c["n"] else []),
+                           initializers=[self.V(c["v"])] if c["v"] else [], name=old.name)
+            # the slot now holds the object just constructed (the old one was pristine: nothing refers to it)
+            self._retired = getattr(self, "_retired", []) + [old]
+            self._gid.pop(id(old), None)
+            self.graphs[gi - 1] = new
+            self._gid[id(new)] = gi
+            if hasattr(self, "_fwrap"):
+                self._fwrap.pop(gi, None)
         elif op == "ReplaceNodes":
             self._ret(ir.convenience.replace_nodes_and_values(
                 self.GF(c["g"]), self.N(c["n"]), [self.N(x) for x in c["vs"]], [self.N(x) for x in c["ws"]],
